@@ -328,7 +328,9 @@ func c02Gen(t *rapid.T) C02Case {
 	names := []string{"web", "db", "web-1", "api", "web_1", "cache"}
 	images := []string{"nginx:1.25", "postgres", "nginx", "redis:7"}
 	states := []string{"running", "exited", "paused"}
-	dockerKeys := []string{"com.docker.compose.service", "com.docker.compose.project", "env", "tier", "a-b", "a/b c", "1st", "maintainer", "org.label-schema.name", "ünï"}
+	dockerKeys := []string{"com.docker.compose.service", "com.docker.compose.project", "env", "tier", "a-b", "a/b c", "1st", "maintainer", "org.label-schema.name", "ünï",
+		// keys spelled like the daemon's own container attributes / list filters
+		"id", "name", "image", "status", "label", "ancestor"}
 	dockerVals := []string{"web", "db", "prod", "", "x y", "1", "prod-eu"}
 	usedID := map[string]bool{}
 	for i := 0; i < n; i++ {
